@@ -132,7 +132,9 @@ fn ix(rep: &mut Report, thorough: bool) {
     let ports: [Option<u16>; 5] = [None, Some(80), Some(443), Some(8080), Some(65535)];
     let methods = ["GET", "POST", "PUT", "OPTIONS", "CONNECT"];
     let host_names = ["Host", "host", "HOST", "hOsT"];
-    let others: Vec<Vec<&str>> = vec![vec![], vec!["Accept: */*"], vec!["Hostile: yes", "X-A: 1"], vec!["X-A: 1", "X-A: 1"], vec!["Proxy-Connection: keep-alive", "User-Agent: u"]];
+    let others: Vec<Vec<&str>> = vec![vec![], vec!["Accept: */*"], vec!["Hostile: yes", "X-A: 1"], vec!["X-A: 1", "X-A: 1"], vec!["Proxy-Connection: keep-alive", "User-Agent: u"],
+        // lines without a colon (obsolete folding, a bare token), an empty value, hop-by-hop / proxy headers
+        vec!["Cookie: a=1;", "\tb=2"], vec!["X-Bare", "X-Empty:"], vec!["X-F: 1", " folded: with colon"], vec!["Proxy-Authorization: Basic eDp5", "Connection: close"]];
     let bodies: Vec<Vec<u8>> = vec![vec![], vec![b'x'], pat_vec(1, 0, 0, 1024)];
     let mut n = 0u64;
     for method in methods {
